@@ -21,6 +21,8 @@ MODELS: Dict[str, pathlib.Path] = {
     "diamond": VERIF / "models" / "c02_diamond_tighten.py",
     # list properties of every shape (required / optional x primitive, bytes, constrained primitive, enumeration, class)
     "shapes": VERIF / "models" / "c29_shapes.py",
+    # a concrete class given as an implementation-specific snippet: of interest to the traversal check (C29) only
+    "traversal-only:impl_specific": VERIF / "models" / "c29_impl_specific.py",
     # nesting of operators (parentheses in the transpiled expression): of interest to C08 only ("verification-only:")
     "verification-only:operators": VERIF / "models" / "c08_operators.py",
     # models which the front end may legitimately REJECT (then there is nothing to compare); if it accepts them, the
@@ -31,12 +33,17 @@ for _p in sorted((REPO / "dev" / "test_data" / "common_meta_models").glob("*.py"
     if "aas_core_meta" not in _p.name:
         MODELS["repo:" + _p.stem] = _p
 
+# implementation-specific snippets which a model needs
+SNIPPETS: Dict[str, pathlib.Path] = {"traversal-only:impl_specific": VERIF / "models" / "c29_impl_specific_snippets"}
+# prefixes of the models which only some checks use
+NOT_FOR_SERIALIZATION = ("may-reject:", "verification-only:", "traversal-only:")
+
 _SDKS: Dict[str, Sdk] = {}
 
 
 def sdk_of(model: str) -> Sdk:
     if model not in _SDKS:
-        _SDKS[model] = Sdk(MODELS[model].read_text(encoding="utf-8"))
+        _SDKS[model] = Sdk(MODELS[model].read_text(encoding="utf-8"), snippets_from=SNIPPETS.get(model))
     return _SDKS[model]
 
 
@@ -240,7 +247,7 @@ def _self_members(node: Any) -> set:
 def shards(tier: str) -> List[Dict[str, Any]]:
     out = []
     for model in MODELS:
-        if not MODELS[model].exists():
+        if not MODELS[model].exists() or model.startswith("traversal-only:"):
             continue
         for kind, name, focus in _targets(model):
             list_len = 2 if tier == "quick" else 3
